@@ -122,6 +122,19 @@ func rndScalar(r *rand.Rand, k string, zero bool) AV {
 		case "fixed64", "sfixed64", "double":
 			a = sv(tr.LE64(rnd64(r)))
 		default:
+			if k == "string" && r.Intn(3) == 0 {
+				// text with characters that matter to text / JSON renderings (always valid UTF-8)
+				var sb []byte
+				for j := 1 + r.Intn(4); j > 0; j-- {
+					sb = append(sb, snippets[r.Intn(len(snippets))]...)
+				}
+				b := make([]int, len(sb))
+				for i := range sb {
+					b[i] = int(sb[i])
+				}
+				a = sv(b)
+				break
+			}
 			n := []int{0, 1, 2, 3, 5, 17}[r.Intn(6)]
 			b := make([]int, n)
 			for i := range b {
@@ -138,6 +151,8 @@ func rndScalar(r *rand.Rand, k string, zero bool) AV {
 		}
 	}
 }
+
+var snippets = []string{"a, b", "k:  v", "\": \"", "\"", "\\", "{", "}", "[1, 2]", "\n", "\t", " ", "\u00e9", "\u65e5\u672c", "<&>", "x,y", ": ", "//", "null", "0"}
 
 func rnd64(r *rand.Rand) uint64 {
 	switch r.Intn(6) {
